@@ -67,6 +67,18 @@ func checkC09(c caseC09) (Outcome, error) {
 	if err := compareDoc(c.Doc, records); err != nil {
 		return out, fmt.Errorf("print output parses to different records: %v\ninput: %s\noutput: %s", err, quoteShort(text), quoteShort(o1))
 	}
+	// The same through klog's real entry point (argv, production context, real stdout): what the
+	// user sees is that canonical text too.
+	if len(text)%4 == 0 {
+		code, rerr, realOut := h.RunMain([]string{"print", "--no-style", "--no-warn", f}, -1)
+		if code != 0 {
+			return out, fmt.Errorf("`klog print --no-style FILE` through klog.Run exits with %d (%v)\ninput: %s", code, rerr, quoteShort(text))
+		}
+		if strings.Trim(realOut, "\n") != strings.Trim(o1, "\n") {
+			return out, fmt.Errorf("`klog print --no-style FILE` through klog.Run writes something else to stdout than the canonical form\ninput:  %s\nstdout: %s\nwant:   %s", quoteShort(text), quoteShort(realOut), quoteShort(o1))
+		}
+		out.Label("via-klog.Run")
+	}
 	// Fixed point.
 	f2 := h.WriteFile("out.klg", o1)
 	r2 := h.RunPrint([]string{f2}, false, true, util.FilterArgs{}, "")
